@@ -47,6 +47,8 @@ def params_of(o):
         return None
     if isinstance(o, (tuple, list)):
         return [params_of(v) for v in o]
+    if isinstance(o, dict) and not hasattr(o, "slice"):
+        return {k: np.asarray(v, dtype=float) for k, v in o.items()}
     if hasattr(o, "__dict__") and hasattr(o, "slice"):
         names = ("Lambda", "nu", "ln_beta", "M", "b", "Sigma", "ln_det_Sigma", "mu", "v", "g")
         d = o.__dict__
